@@ -59,6 +59,18 @@ c.may_reject = BaseException
 c.interp_flags = {"havoc_unknown_calls": True}
 c.on_exit = sm_on_exit
 con.cases.append(c)
+# the coroutine is reached on more than one path (a helper with an early return before cohdl.coroutine_step): rejected by the
+# path check of this branch -- also THIS rejection must leave no active StatemachineContext behind
+c = Case("statemachine-reached-on-two-paths", [
+    Built([], lambda env: SObj(GI.IrGenerator), lambda a: "None", lambda a: None),
+    Built([], lambda env: SObj(out.Statemachine, _name="sm", _body=Opaque("body"), _frame=None), lambda a: "None", lambda a: None),
+    Built([], lambda env: [SObj(ir.CodeBlock, _content=[]), SObj(ir.CodeBlock, _content=[])], lambda a: "None", lambda a: None),
+], lambda sx, *a: C.ANY)
+c.native = False
+c.may_reject = BaseException
+c.interp_flags = {"havoc_unknown_calls": True}
+c.on_exit = sm_on_exit
+con.cases.append(c)
 
 
 # ---- 2. prepare_ast: dummy block on the block stack ---------------------------------------------------------
